@@ -1664,11 +1664,25 @@ class SMTFormula(Formula):
         return 1
 
     def __neg__(self) -> "SMTFormula":
+        negated_smt_formula = z3_push_in_negations(self.formula, negate=True)
+        # Automatic simplification can remove free variables from the formula!
+        actual_symbols = get_symbols(negated_smt_formula)
+
         return SMTFormula(
-            z3_push_in_negations(self.formula, negate=True),
-            *self.free_variables(),
-            instantiated_variables=self.instantiated_variables,
-            substitutions=self.substitutions,
+            negated_smt_formula,
+            *[var for var in self.free_variables() if var.to_smt() in actual_symbols],
+            instantiated_variables=FrozenOrderedSet(
+                [
+                    var
+                    for var in self.instantiated_variables
+                    if var.to_smt() in actual_symbols
+                ]
+            ),
+            substitutions={
+                var: repl
+                for var, repl in self.substitutions.items()
+                if var.to_smt() in actual_symbols
+            },
             auto_eval=self.auto_eval,
             auto_subst=self.auto_subst,
         )
